@@ -162,6 +162,27 @@ def replay_rls(ctx, tally, sysrec, r):
     except Exception as ex:
         tally.add('exception %s RestrictedLinearSystem %s' % (type(ex).__name__, cls),
                   {'case': case, 'error': repr(ex)})
+    # the property itself with an INTEGER-typed right-hand side (the documented `b = 0` idiom, or an int array) and
+    # non-integer Dirichlet values: the completed vector takes the values and satisfies the non-eliminated rows
+    if m >= 1 and vm == 'array' and hv % 3 == 0:
+        try:
+            bi = np.array(sysrec['b'], dtype=int) if rm == 'array' else 0
+            bfull_i = np.array(sysrec['b'], dtype=float) if rm == 'array' else np.zeros(n)
+            hvals = vals / 2.0 + 0.25
+            LS2 = assemble.RestrictedLinearSystem(A, bi, (np.array(idx, dtype=int), hvals.copy()), **kw)
+            LA2 = dense(LS2.A)
+            nf = n - m
+            u2 = np.linalg.solve(LA2, np.asarray(LS2.b, dtype=float)) if nf > 0 else np.zeros(0)
+            x2 = np.asarray(LS2.complete(u2), dtype=float)
+            if any(abs(x2[i] - v) > TOL * max(1, abs(v)) for i, v in zip(idx, hvals)):
+                bad('integer-rhs complete:prescribed-values', x2, hvals)
+            else:
+                res2 = Ad.dot(x2) - bfull_i
+                if any(abs(res2[i]) > 1e-8 * max(1.0, float(np.abs(x2).max()) * 10) for i in r['frows']):
+                    bad('integer-rhs complete:non-eliminated-rows-residual', res2, np.zeros(n))
+        except Exception as ex:
+            tally.add('exception %s RestrictedLinearSystem integer-rhs %s' % (type(ex).__name__, cls),
+                      {'case': case, 'error': repr(ex)})
     nontrivial = m >= 2 and order == 'unsorted' or r['helim'] and m >= 1
     ctx.case(('rls', n, tuple(idx), vm, r['helim'], tuple(r['elim']), rm, fmt), nontrivial=nontrivial,
              sample=case if (hv % 997 == 0) else None)
